@@ -2,12 +2,12 @@
 import sys, os
 sys.path.insert(0, os.path.dirname(os.path.dirname(os.path.abspath(__file__))))
 from nsa.main import run_property
-from nsa.thorough import transformed_sources, AlphaRename, SwapIfElse
+from nsa.thorough import transformed_sources, AlphaRename, SwapIfElse, CommuteMult, HoistDivisor, FlipCompare
 prop = sys.argv[1]
 code, ctx = run_property(prop, "quick", quiet=True, write=False)
 base = {(o.rule, o.key) for o in ctx.obs if o.verdict == "violated"}
 cons = sorted(ctx.model.consulted)
-for label, fac in (("roundtrip", lambda: None), ("alpha", AlphaRename), ("swap", SwapIfElse)):
+for label, fac in (("roundtrip", lambda: None), ("alpha", AlphaRename), ("swap", SwapIfElse), ("commute", CommuteMult), ("hoist", HoistDivisor), ("flip", FlipCompare)):
     srcs, n = transformed_sources(cons, fac)
     c, c2 = run_property(prop, "quick", overrides=srcs, quiet=True, write=False, reuse=ctx.model)
     for o in c2.obs:
